@@ -1125,9 +1125,24 @@ def dataframe_strategy(
 
         row_strategy = None
         if row_strategy_checks:
+            # the cells are drawn from the row strategy: it has to honour
+            # the checks of the column itself as well (the ones without a
+            # strategy are applied to the dataframe below)
             row_strategy = st.fixed_dictionaries(
                 {
-                    col_name: make_row_strategy(col, row_strategy_checks)
+                    col_name: make_row_strategy(
+                        col,
+                        [
+                            check
+                            for check in col.checks
+                            if check.strategy
+                            or STRATEGY_DISPATCHER.get(
+                                (check.name, pd.DataFrame), None
+                            )
+                            or check.element_wise
+                        ]
+                        + row_strategy_checks,
+                    )
                     for col_name, col in expanded_columns.items()
                 }
             )
